@@ -297,7 +297,23 @@ fn in_domain_opt(m: &Model, dangling_ok: bool) -> bool {
         (Kind::Link, Some(t)) => matches!(m.k(t), K::Dir | K::File) && n.link_dir == (m.k(t) == K::Dir),
         _ => true,
     }) && m.t.nodes.iter().all(|(k, n)| match (&n.kind, &n.target, &n.rel) {
-        (Kind::Link, Some(t), _) if dangling_ok && m.k(t) == K::Missing && !m.through_link(t) => true,
+        (Kind::Link, Some(t), r) if dangling_ok && m.k(t) == K::Missing && !m.through_link(t) => {
+            // (a text that climbs above the virtual root leaves the sandbox, dangling or not)
+            let dir = tree::parent(k).unwrap_or_else(|| "/".into());
+            let mut level = tree::depth(&dir) as i64;
+            let mut escapes = false;
+            for c in r.as_deref().unwrap_or("").split('/') {
+                match c {
+                    ".." => level -= 1,
+                    "" | "." => {},
+                    _ => level += 1,
+                }
+                if level < 0 {
+                    escapes = true;
+                }
+            }
+            !escapes || r.as_deref().map(|x| x.starts_with('/')).unwrap_or(false)
+        },
         // ... and its stored relative text still leads from where the link is now to that target:
         // a moved link keeps its text on disk but its absolute target in Memfs
         (Kind::Link, Some(t), Some(r)) => {
